@@ -846,10 +846,85 @@ class C11Executor(_verify.Executor):
                 outs.append(o)
         return outs
 
+    # -- round 8: `with contextlib.ExitStack() as K: K.callback(f, a..); ...; <rest>` where the registrations are the FIRST
+    #    statements of the body, K is used nowhere else, f / a.. are names, constants or attribute chains of names that <rest> never
+    #    rebinds, is by the documented semantics of ExitStack (callbacks run last-in first-out on every exit, their result never
+    #    suppresses, an exception they raise replaces the one in flight) `try: <rest> finally: f(a..)` -- executed as that.
+    def _exitstack_try(self, s, st):
+        import ast as _ast
+        if isinstance(s, _ast.AsyncWith) or len(s.items) != 1:
+            return None
+        item = s.items[0]
+        c = item.context_expr
+        if not (isinstance(c, _ast.Call) and not c.args and not c.keywords and isinstance(item.optional_vars, _ast.Name)):
+            return None
+        f = c.func
+        imp = self.module.imports
+        if isinstance(f, _ast.Attribute) and isinstance(f.value, _ast.Name):
+            ok = f.attr == "ExitStack" and imp.get(f.value.id) == "contextlib" and st.lookup(f.value.id) is None
+        elif isinstance(f, _ast.Name):
+            ok = imp.get(f.id) == "contextlib.ExitStack" and st.lookup(f.id) is None
+        else:
+            ok = False
+        if not ok:
+            return None
+        k = item.optional_vars.id
+        regs, rest = [], list(s.body)
+        while rest:
+            x = rest[0]
+            if (isinstance(x, _ast.Expr) and isinstance(x.value, _ast.Call) and isinstance(x.value.func, _ast.Attribute)
+                    and isinstance(x.value.func.value, _ast.Name) and x.value.func.value.id == k and x.value.func.attr == "callback"
+                    and x.value.args and not any(isinstance(y, _ast.Starred) for y in x.value.args)
+                    and all(kw.arg is not None for kw in x.value.keywords)):
+                regs.append(x.value)
+                rest.pop(0)
+            else:
+                break
+        if not regs or not rest:
+            return None
+        used = set()
+
+        def plain(e):
+            if isinstance(e, _ast.Constant):
+                return True
+            while isinstance(e, _ast.Attribute):
+                e = e.value
+            if isinstance(e, _ast.Name) and e.id != k:
+                used.add(e.id)
+                return True
+            return False
+        for r in regs:
+            if not all(plain(e) for e in list(r.args) + [kw.value for kw in r.keywords]):
+                return None
+        for x in rest:
+            for y in _ast.walk(x):
+                if isinstance(y, _ast.Name) and (y.id == k or (y.id in used and not isinstance(y.ctx, _ast.Load))):
+                    return None
+                if isinstance(y, (_ast.Global, _ast.Nonlocal, _ast.Yield, _ast.YieldFrom, _ast.Await)):
+                    return None
+                if isinstance(y, _ast.arg) and y.arg in used | {k}:
+                    return None
+        final = []
+        for r in reversed(regs):
+            call = _ast.Call(func=r.args[0], args=list(r.args[1:]), keywords=list(r.keywords))
+            e = _ast.Expr(value=call)
+            _ast.copy_location(call, r)
+            _ast.copy_location(e, r)
+            final.append(e)
+        t = _ast.Try(body=rest, handlers=[], orelse=[], finalbody=final)
+        _ast.copy_location(t, s)
+        return t
+
     def s_With(self, s, st):
         import ast as _ast
         from pyvc.symex import Outcome
         from pyvc.values import VRef, VExc
+        try:
+            t = self._exitstack_try(s, st)
+        except Exception:  # noqa -- not a shape read here: the engine decides
+            t = None
+        if t is not None:
+            return self.exec_stmt(t, st)
         try:
             gen = [self._generator_cm(it, st) for it in s.items] if not isinstance(s, _ast.AsyncWith) else []
         except Exception:  # noqa -- not a shape read here: the engine decides
